@@ -10,6 +10,9 @@ file (computed on the AST, written back with ast.unparse) and *all* claimed chec
   swapcmp      a == b -> b == a, a != b -> b != a, a < b -> b > a ...
   invertif     if c: A else: B  ->  if not c: B else: A
   kwsort       keyword arguments of calls sorted by name
+  retvar       return EXPR -> _ret = EXPR; return _ret
+  ternary2if   x = a if c else b -> if/else statement
+  comp2loop    X = [elt for v in it if c] -> explicit loop with append
 """
 import ast
 import concurrent.futures
@@ -106,7 +109,70 @@ class KwSort(ast.NodeTransformer):
         return node
 
 
-TRANSFORMS = {'unparse': None, 'rename': Rename, 'augassign': AugAssign, 'swapcmp': SwapCmp, 'invertif': InvertIf, 'kwsort': KwSort}
+
+
+class RetVar(ast.NodeTransformer):
+    """return EXPR  ->  _ret = EXPR; return _ret"""
+    def visit_FunctionDef(self, node):
+        self.generic_visit(node)
+        return node
+
+    def _block(self, stmts):
+        out = []
+        for st in stmts:
+            if isinstance(st, ast.Return) and st.value is not None and not isinstance(st.value, (ast.Name, ast.Constant)):
+                out.append(ast.copy_location(ast.Assign(targets=[ast.Name(id='_ret', ctx=ast.Store())], value=st.value), st))
+                out.append(ast.copy_location(ast.Return(value=ast.Name(id='_ret', ctx=ast.Load())), st))
+            else:
+                out.append(st)
+        return out
+
+    def generic_visit(self, node):
+        super().generic_visit(node)
+        for f in ('body', 'orelse', 'finalbody'):
+            v = getattr(node, f, None)
+            if isinstance(v, list) and v and isinstance(v[0], ast.stmt):
+                setattr(node, f, self._block(v))
+        return node
+
+
+class Ternary2If(ast.NodeTransformer):
+    """x = a if c else b  ->  if c: x = a / else: x = b   (simple name targets, statement level)"""
+    def visit_Assign(self, node):
+        if len(node.targets) == 1 and isinstance(node.targets[0], ast.Name) and isinstance(node.value, ast.IfExp):
+            t = node.targets[0].id
+            mk = lambda v: ast.Assign(targets=[ast.Name(id=t, ctx=ast.Store())], value=v)
+            return ast.copy_location(ast.If(test=node.value.test, body=[mk(node.value.body)], orelse=[mk(node.value.orelse)]), node)
+        return node
+
+
+class Comp2Loop(ast.NodeTransformer):
+    """X = [elt for v in it if c]  ->  X = []; for v in it: if c: X.append(elt)   (one generator, name target, X not used in the comprehension)"""
+    def generic_visit(self, node):
+        super().generic_visit(node)
+        for f in ('body', 'orelse', 'finalbody'):
+            v = getattr(node, f, None)
+            if isinstance(v, list) and v and isinstance(v[0], ast.stmt):
+                out = []
+                for st in v:
+                    if isinstance(st, ast.Assign) and len(st.targets) == 1 and isinstance(st.targets[0], ast.Name) and isinstance(st.value, ast.ListComp) \
+                            and len(st.value.generators) == 1 and not st.value.generators[0].is_async \
+                            and not any(isinstance(n, ast.Name) and n.id == st.targets[0].id for n in ast.walk(st.value)):
+                        x = st.targets[0].id
+                        g = st.value.generators[0]
+                        inner = ast.Expr(value=ast.Call(func=ast.Attribute(value=ast.Name(id=x, ctx=ast.Load()), attr='append', ctx=ast.Load()), args=[st.value.elt], keywords=[]))
+                        body = [inner]
+                        for c in reversed(g.ifs):
+                            body = [ast.If(test=c, body=body, orelse=[])]
+                        out.append(ast.copy_location(ast.Assign(targets=[ast.Name(id=x, ctx=ast.Store())], value=ast.List(elts=[], ctx=ast.Load())), st))
+                        out.append(ast.copy_location(ast.For(target=g.target, iter=g.iter, body=body, orelse=[]), st))
+                    else:
+                        out.append(st)
+                setattr(node, f, out)
+        return node
+
+
+TRANSFORMS = {'unparse': None, 'rename': Rename, 'augassign': AugAssign, 'swapcmp': SwapCmp, 'invertif': InvertIf, 'kwsort': KwSort, 'retvar': RetVar, 'ternary2if': Ternary2If, 'comp2loop': Comp2Loop}
 
 
 def transform(src, name):
